@@ -447,6 +447,16 @@ fn main() {
                         events.push((t, h.address(), e));
                     }
                 }
+                let api: u64 = std::env::var("API").ok().and_then(|v| v.parse().ok()).unwrap_or(0);
+                if api > 0 && n_slaves > 0 && rng.range(0, 9999) < api {
+                    match rng.range(0, 3) {
+                        0 => { f.set_offline(); }
+                        1 => { f.set_online(); }
+                        2 => { let h = handles[rng.range(0, n_slaves as u64 - 1) as usize]; let a = dpm.get_mut(h).address(); let na = if std::env::var_os("RESET_OTHER").is_some() { 10 + ((a - 10 + 1) % n_slaves as u8) } else { a }; dpm.get_mut(h).reset_address(na); }
+                        _ => { dpm.enter_operate(); }
+                    }
+                }
+                if !f.connectivity_state().is_online() && rng.range(0, 99) < 5 { f.set_online(); }
                 if userdiag && t < fault_ms * 1000 && rng.range(0, 99) < 3 {
                     let h = handles[rng.range(0, n_slaves as u64 - 1) as usize];
                     dpm.get_mut(h).request_diagnostics();
